@@ -29,7 +29,7 @@ Proof.
 Qed.
 Lemma prod_eqb_eq p q : prod_eqb p q = true <-> p = q.
 Proof.
-  destruct p as [| |s], q as [| |t]; cbn; split; intros H; try discriminate; auto.
+  destruct p as [| |s|], q as [| |t|]; cbn; split; intros H; try discriminate; auto.
   - apply asite_eqb_eq in H. now subst.
   - inversion H; subst. now apply asite_eqb_eq.
 Qed.
@@ -70,15 +70,32 @@ Proof.
   destruct H as [->|H]; [rewrite var_eqb_refl in E; discriminate | auto].
 Qed.
 
+Lemma in_union a b p : In p (union a b) <-> In p a \/ In p b.
+Proof.
+  unfold union. rewrite in_app_iff, filter_In. split.
+  - intros [H|[H _]]; auto.
+  - intros [H|H]; auto. destruct (existsb (prod_eqb p) a) eqn:E.
+    + apply existsb_exists in E. destruct E as [q [Hq E]]. apply prod_eqb_eq in E. subst. auto.
+    + right. split; auto.
+Qed.
+
+Lemma in_dedup_vars l x : In x (dedup_vars l) <-> In x l.
+Proof.
+  induction l as [|y l IH]; cbn; [tauto|]. destruct (existsb (var_eqb y) l) eqn:E.
+  - rewrite IH. split; auto. intros [->|H]; auto.
+    apply existsb_exists in E. destruct E as [z [Hz E]]. apply var_eqb_eq in E. now subst.
+  - cbn. rewrite IH. tauto.
+Qed.
+
 Lemma aget_join e1 e2 x p : In p (aget (join e1 e2) x) <-> In p (aget e1 x) \/ In p (aget e2 x).
 Proof.
   unfold join. destruct (in_dec var_eq_dec x (keys e1 ++ keys e2)) as [Hin|Hnin].
-  - rewrite aget_map_keys by auto. apply in_app_iff.
+  - rewrite aget_map_keys by (now apply in_dedup_vars). apply in_union.
   - assert (H1 : ~ In x (keys e1)) by (intros Hx; apply Hnin; apply in_or_app; auto).
     assert (H2 : ~ In x (keys e2)) by (intros Hx; apply Hnin; apply in_or_app; auto).
     rewrite (aget_notin e1), (aget_notin e2) by auto.
-    assert (Hk : ~ In x (keys (map (fun y => (y, aget e1 y ++ aget e2 y)) (keys e1 ++ keys e2)))).
-    { unfold keys at 1. rewrite map_map. cbn. rewrite map_id. exact Hnin. }
+    assert (Hk : ~ In x (keys (map (fun y => (y, union (aget e1 y) (aget e2 y))) (dedup_vars (keys e1 ++ keys e2))))).
+    { unfold keys at 1. rewrite map_map. cbn. rewrite map_id. now rewrite in_dedup_vars. }
     rewrite aget_notin by auto. tauto.
 Qed.
 
@@ -89,6 +106,32 @@ Proof. intros x p H. apply aget_join. auto. Qed.
 
 Lemma aget_aput e x a y : aget (aput e x a) y = if var_eqb x y then a else aget e y.
 Proof. reflexivity. Qed.
+
+Lemma use_ok_in ps p : use_ok ps = true -> In p ps -> p <> PStale.
+Proof.
+  unfold use_ok. intros H Hp ->. apply negb_true_iff in H.
+  assert (E : existsb (prod_eqb PStale) ps = true) by (apply existsb_exists; exists PStale; split; auto).
+  congruence.
+Qed.
+
+Lemma aget_mark_stale e : forall ng x, aget (mark_stale ng e) x =
+  match x with
+  | VL _ => aget e x
+  | VG k => if Nat.ltb k ng && negb (fresh e k) then PStale :: aget e x else aget e x
+  end.
+Proof.
+  induction ng as [|n IH]; intros x; cbn [mark_stale].
+  - destruct x; auto.
+  - destruct (fresh e n) eqn:F.
+    + rewrite IH. destruct x as [i|k]; auto.
+      destruct (Nat.ltb_spec k n), (Nat.ltb_spec k (S n)); cbn; auto; try lia.
+      assert (k = n) by lia. subst. now rewrite F.
+    + rewrite aget_aput. destruct x as [i|k]; cbn [var_eqb].
+      * apply IH.
+      * destruct (Nat.eqb_spec n k) as [->|E].
+        -- rewrite F. destruct (Nat.ltb_spec k (S k)); cbn; auto; lia.
+        -- rewrite IH. destruct (Nat.ltb_spec k n), (Nat.ltb_spec k (S n)); cbn; auto; lia.
+Qed.
 
 (* ---------- the declarative form of the analysis ---------- *)
 Section Judgement.
@@ -106,42 +149,49 @@ Section Judgement.
     | JSkip e : J SSkip e (Some e)
     | JSeqN s1 s2 e : J s1 e None -> J (SSeq s1 s2) e None
     | JSeq s1 s2 e e1 e2 : J s1 e (Some e1) -> J s2 e1 e2 -> J (SSeq s1 s2) e e2
-    | JAssign x a e : incl_all (store_triggers x (prods_of_atom e a)) -> J (SAssign x a) e (Some (aput e x (prods_of_atom e a)))
-    | JCall x g args e : args_ok e g args -> globals_fresh ng e = true ->
+    | JAssign x a e : incl_all (store_triggers x (prods_of_atom e a)) ->
+        use_ok (prods_of_atom e a) || negb (is_glob x) = true ->
+        J (SAssign x a) e (Some (aput e x (prods_of_atom e a)))
+    | JCall x g args e : args_ok e g args -> forallb (fun a => use_ok (prods_of_atom e a)) args = true ->
         incl_all (match x with Some y => store_triggers y [PSite (SResult g)] | None => [] end) ->
-        J (SCall x g args) e (Some (match x with Some y => aput e y [PSite (SResult g)] | None => e end))
-    | JDeref d x e : (forall p, In p (aget e x) -> In (mk_trigger d p KAlways) ALL) -> J (SDeref d x) e (Some e)
-    | JIf c s1 s2 e et ef trc o1 o2 : acond c e = (et, ef, trc) -> incl_all trc ->
+        J (SCall x g args) e (Some (match x with Some y => aput (mark_stale ng e) y [PSite (SResult g)] | None => mark_stale ng e end))
+    | JDeref d x e : (forall p, In p (aget e x) -> In (mk_trigger d p KAlways) ALL) -> use_ok (aget e x) = true ->
+        J (SDeref d x) e (Some e)
+    | JIf c s1 s2 e et ef trc o1 o2 : acond c e = (et, ef, trc, true) -> incl_all trc ->
         J s1 et o1 -> J s2 ef o2 -> J (SIf c s1 s2) e (join_opt o1 o2)
     | JWhile c body e einv et ef trc ob :
-        env_le e einv -> acond c einv = (et, ef, trc) -> incl_all trc -> J body et ob ->
+        env_le e einv -> acond c einv = (et, ef, trc, true) -> incl_all trc -> J body et ob ->
         (forall eb, ob = Some eb -> env_le eb einv) ->
         J (SWhile c body) e (Some ef)
-    | JReturn a e : (forall p, In p (prods_of_atom e a) -> In (mk_trigger 0 p (KCond (enc (SResult f)))) ALL) -> J (SReturn a) e None.
+    | JReturn a e : (forall p, In p (prods_of_atom e a) -> In (mk_trigger 0 p (KCond (enc (SResult f)))) ALL) ->
+        use_ok (prods_of_atom e a) = true -> J (SReturn a) e None.
 
   Lemma J_skip_inv e o : J SSkip e o -> o = Some e.
   Proof. inversion 1; subst; auto. Qed.
   Lemma J_seq_inv s1 s2 e o : J (SSeq s1 s2) e o -> (J s1 e None /\ o = None) \/ exists e1, J s1 e (Some e1) /\ J s2 e1 o.
   Proof. inversion 1; subst; eauto. Qed.
   Lemma J_assign_inv x a e o : J (SAssign x a) e o ->
-    incl_all (store_triggers x (prods_of_atom e a)) /\ o = Some (aput e x (prods_of_atom e a)).
+    incl_all (store_triggers x (prods_of_atom e a)) /\ use_ok (prods_of_atom e a) || negb (is_glob x) = true /\
+    o = Some (aput e x (prods_of_atom e a)).
   Proof. inversion 1; subst; auto. Qed.
   Lemma J_call_inv x g args e o : J (SCall x g args) e o ->
-    args_ok e g args /\ globals_fresh ng e = true /\
+    args_ok e g args /\ forallb (fun a => use_ok (prods_of_atom e a)) args = true /\
     incl_all (match x with Some y => store_triggers y [PSite (SResult g)] | None => [] end) /\
-    o = Some (match x with Some y => aput e y [PSite (SResult g)] | None => e end).
+    o = Some (match x with Some y => aput (mark_stale ng e) y [PSite (SResult g)] | None => mark_stale ng e end).
   Proof. inversion 1; subst; auto. Qed.
-  Lemma J_deref_inv d x e o : J (SDeref d x) e o -> (forall p, In p (aget e x) -> In (mk_trigger d p KAlways) ALL) /\ o = Some e.
+  Lemma J_deref_inv d x e o : J (SDeref d x) e o ->
+    (forall p, In p (aget e x) -> In (mk_trigger d p KAlways) ALL) /\ use_ok (aget e x) = true /\ o = Some e.
   Proof. inversion 1; subst; auto. Qed.
   Lemma J_if_inv c s1 s2 e o : J (SIf c s1 s2) e o ->
-    exists et ef trc o1 o2, acond c e = (et, ef, trc) /\ incl_all trc /\ J s1 et o1 /\ J s2 ef o2 /\ o = join_opt o1 o2.
+    exists et ef trc o1 o2, acond c e = (et, ef, trc, true) /\ incl_all trc /\ J s1 et o1 /\ J s2 ef o2 /\ o = join_opt o1 o2.
   Proof. inversion 1; subst. do 5 eexists. eauto. Qed.
   Lemma J_while_inv c body e o : J (SWhile c body) e o ->
-    exists einv et ef trc ob, env_le e einv /\ acond c einv = (et, ef, trc) /\ incl_all trc /\ J body et ob /\
+    exists einv et ef trc ob, env_le e einv /\ acond c einv = (et, ef, trc, true) /\ incl_all trc /\ J body et ob /\
       (forall eb, ob = Some eb -> env_le eb einv) /\ o = Some ef.
   Proof. inversion 1; subst. do 5 eexists. eauto 10. Qed.
   Lemma J_return_inv a e o : J (SReturn a) e o ->
-    (forall p, In p (prods_of_atom e a) -> In (mk_trigger 0 p (KCond (enc (SResult f)))) ALL) /\ o = None.
+    (forall p, In p (prods_of_atom e a) -> In (mk_trigger 0 p (KCond (enc (SResult f)))) ALL) /\
+    use_ok (prods_of_atom e a) = true /\ o = None.
   Proof. inversion 1; subst; auto. Qed.
 
   Lemma arg_triggers_ok e g : forall args i0,
@@ -159,10 +209,10 @@ Section Judgement.
 
   Lemma loop_inv_spec (an : env -> option ares) c : forall n e einv r,
     loop_inv an c n e = Some (einv, r) ->
-    env_le e einv /\ an (fst (fst (acond c einv))) = Some r /\ (forall eb, a_env r = Some eb -> env_le eb einv).
+    env_le e einv /\ an (cond_true c einv) = Some r /\ (forall eb, a_env r = Some eb -> env_le eb einv).
   Proof.
     induction n as [|n IH]; intros e einv r H; cbn in H; [discriminate|].
-    destruct (an (fst (fst (acond c e)))) as [r0|] eqn:Ea; try discriminate.
+    destruct (an (cond_true c e)) as [r0|] eqn:Ea; try discriminate.
     destruct (a_env r0) as [eb|] eqn:Eb.
     - destruct (env_leb eb e) eqn:El.
       + inversion H; subst. split; [apply env_le_refl|]. split; auto.
@@ -190,22 +240,24 @@ Section Judgement.
         apply andb_true_iff in Hg. destruct Hg as [Hg1 Hg2]. apply incl_all_app in Hall. destruct Hall as [Ha1 Ha2].
         eapply JSeq; [rewrite <- Ee1; eapply IH1; eauto | eapply IH2; eauto].
       + inversion H; subst. rewrite Ee1. apply JSeqN. rewrite <- Ee1. eapply IH1; eauto.
-    - inversion H; subst. cbn in *. constructor. exact Hall.
+    - inversion H; subst. cbn in *. constructor; auto.
     - inversion H; subst. cbn in *. apply incl_all_app in Hall. destruct Hall as [Ha1 Ha2]. constructor; auto.
       intros i a Hn p Hp. apply (arg_triggers_ok e g args 0 Ha1 i a Hn p Hp).
-    - inversion H; subst. cbn in *. constructor. intros p Hp. apply Hall. apply in_map_iff. exists p. auto.
-    - destruct (acond c e) as [[et ef] trc] eqn:Ec.
+    - inversion H; subst. cbn in *. constructor; auto. intros p Hp. apply Hall. apply in_map_iff. exists p. auto.
+    - destruct (acond c e) as [[[et ef] trc] bc] eqn:Ec.
       destruct (analyze ng f fuel s1 et) as [r1|] eqn:E1; try discriminate.
       destruct (analyze ng f fuel s2 ef) as [r2|] eqn:E2; try discriminate.
-      inversion H; subst. cbn in *. apply andb_true_iff in Hg. destruct Hg as [Hg1 Hg2].
+      inversion H; subst. cbn in *. apply andb_true_iff in Hg. destruct Hg as [Hg Hg2].
+      apply andb_true_iff in Hg. destruct Hg as [Hbc Hg1]. subst bc.
       apply incl_all_app in Hall. destruct Hall as [Ha0 Hall]. apply incl_all_app in Hall. destruct Hall as [Ha1 Ha2].
       eapply JIf; eauto.
     - destruct (loop_inv (analyze ng f fuel body) c fuel e) as [[einv r0]|] eqn:El; try discriminate.
-      destruct (loop_inv_spec _ _ _ _ _ _ El) as [H1 [H2 H3]].
-      destruct (acond c einv) as [[et ef] trc] eqn:Ec. inversion H; subst. cbn in *.
+      destruct (loop_inv_spec _ _ _ _ _ _ El) as [H1 [H2 H3]]. unfold cond_true in H2.
+      destruct (acond c einv) as [[[et ef] trc] bc] eqn:Ec. inversion H; subst. cbn in *.
+      apply andb_true_iff in Hg. destruct Hg as [Hbc Hg1]. subst bc.
       apply incl_all_app in Hall. destruct Hall as [Ha0 Ha1].
       eapply JWhile; eauto.
-    - inversion H; subst. cbn in *. constructor. intros p Hp. apply Hall. apply in_map_iff. exists p. auto.
+    - inversion H; subst. cbn in *. constructor; auto. intros p Hp. apply Hall. apply in_map_iff. exists p. auto.
   Qed.
 End Judgement.
 
@@ -346,7 +398,7 @@ Section Sound.
   Hypothesis WF : forall g fd, nth_error (p_funcs prog) g = Some fd -> stmt_ok prog (f_body fd) = true.
 
   Definition nu (s : asite) : Prop := nilr C (enc s).
-  Definition nilable (p : prod) : Prop := match p with PNil => True | PNever => False | PSite s => nu s end.
+  Definition nilable (p : prod) : Prop := match p with PNil | PStale => True | PNever => False | PSite s => nu s end.
   Definition respects (s : store) (e : env) : Prop :=
     forall x, var_ok prog x = true -> sget s x = VNil -> exists p, In p (aget e x) /\ nilable p.
   (* a package-level variable that holds nil has a nil-able site *)
@@ -358,16 +410,16 @@ Section Sound.
     apply filter_In. split; auto. unfold controlled. now rewrite Hc.
   Qed.
 
-  Lemma trigger_to_site id p k : In (mk_trigger id p (KCond k)) ALL -> nilable p -> nilr C k.
+  Lemma trigger_to_site id p k : In (mk_trigger id p (KCond k)) ALL -> nilable p -> p <> PStale -> nilr C k.
   Proof.
-    intros Ht Hn. destruct p as [| |s]; cbn in Hn; [|contradiction|].
+    intros Ht Hn Hs. destruct p as [| |s|]; cbn in Hn; [|contradiction| |congruence].
     - apply nr_src. eapply in_base; eauto. cbn. left; reflexivity.
     - apply nr_edge with (enc s) id; auto. eapply in_base; eauto. cbn. left; reflexivity.
   Qed.
 
-  Lemma trigger_to_deref id p : In (mk_trigger id p KAlways) ALL -> nilable p -> False.
+  Lemma trigger_to_deref id p : In (mk_trigger id p KAlways) ALL -> nilable p -> p <> PStale -> False.
   Proof.
-    intros Ht Hn. apply NoFlow. destruct p as [| |s]; cbn in Hn; [|contradiction|].
+    intros Ht Hn Hs. apply NoFlow. destruct p as [| |s|]; cbn in Hn; [|contradiction| |congruence].
     - left. exists id. left. eapply in_base; eauto. cbn. left; reflexivity.
     - right. exists (enc s). split; auto. apply nn_snk. left. eapply in_base; eauto. cbn. left; reflexivity.
   Qed.
@@ -377,13 +429,15 @@ Section Sound.
 
   Lemma inv_assign s e x v a :
     respects s e -> GInv s -> (v = VNil -> exists p, In p a /\ nilable p) -> incl_all ALL (store_triggers x a) ->
+    use_ok a || negb (is_glob x) = true ->
     respects (sset s x v) (aput e x a) /\ GInv (sset s x v).
   Proof.
-    intros H HG Hv Hst. split.
+    intros H HG Hv Hst Hu. split.
     - intros y Hok Hy. rewrite sget_sset in Hy. rewrite aget_aput. destruct (var_eqb x y); auto.
     - intros k Hk Hy. rewrite sget_sset in Hy. destruct (var_eqb x (VG k)) eqn:E; auto.
       apply var_eqb_eq in E. subst x. destruct (Hv Hy) as [p [Hp Hn]].
-      eapply trigger_to_site; [|exact Hn]. apply Hst. cbn. apply in_map_iff. exists p. split; eauto.
+      cbn in Hu. rewrite orb_false_r in Hu.
+      eapply trigger_to_site; [|exact Hn|eapply use_ok_in; eauto]. apply Hst. cbn. apply in_map_iff. exists p. split; eauto.
   Qed.
 
   Lemma eval_atom_respects s e a : atom_ok prog a = true -> respects s e -> eval_atom s a = VNil ->
@@ -402,7 +456,7 @@ Section Sound.
   Qed.
 
   Lemma acond_sound c : forall e et ef tr s oracle,
-    acond c e = (et, ef, tr) -> incl_all ALL tr -> cond_ok prog c = true -> respects s e ->
+    acond c e = (et, ef, tr, true) -> incl_all ALL tr -> cond_ok prog c = true -> respects s e ->
     match eval_cond s c oracle with
     | CVal b _ => respects s (if b then et else ef)
     | CPanic _ => False
@@ -411,24 +465,26 @@ Section Sound.
     induction c as [|x|d x|c IH|c1 IH1 c2 IH2|c1 IH1 c2 IH2]; intros e et ef tr s oracle Ha Hall Hok Hr; cbn in Ha, Hok |- *.
     - inversion Ha; subst. destruct (ask oracle) as [b o]. now destruct b.
     - inversion Ha; subst. destruct (sget s x) eqn:E; auto. now apply respects_nonnil.
-    - inversion Ha; subst. destruct (sget s x) eqn:E.
-      + destruct (Hr x Hok E) as [p [Hp Hn]]. eapply trigger_to_deref; [|exact Hn].
+    - inversion Ha as [[E1 E2 E3 Hu]]; subst. destruct (sget s x) eqn:E.
+      + destruct (Hr x Hok E) as [p [Hp Hn]]. eapply trigger_to_deref; [|exact Hn|eapply use_ok_in; eauto].
         apply Hall. apply in_map_iff. exists p. eauto.
       + destruct (ask oracle) as [b o]. now destruct b.
-    - destruct (acond c e) as [[et1 ef1] tr1] eqn:E1. inversion Ha; subst.
+    - destruct (acond c e) as [[[et1 ef1] tr1] b1] eqn:E1. inversion Ha; subst.
       specialize (IH e ef et tr s oracle E1 Hall Hok Hr). destruct (eval_cond s c oracle) as [b o|d]; auto.
       now destruct b.
     - apply andb_true_iff in Hok. destruct Hok as [Hok1 Hok2].
-      destruct (acond c1 e) as [[et1 ef1] tr1] eqn:E1. destruct (acond c2 et1) as [[et2 ef2] tr2] eqn:E2.
-      inversion Ha; subst. apply incl_all_app in Hall. destruct Hall as [Ha1 Ha2].
+      destruct (acond c1 e) as [[[et1 ef1] tr1] b1] eqn:E1. destruct (acond c2 et1) as [[[et2 ef2] tr2] b2] eqn:E2.
+      inversion Ha as [[Ea Eb Ec Hb]]; subst. apply andb_true_iff in Hb. destruct Hb as [-> ->].
+      apply incl_all_app in Hall. destruct Hall as [Ha1 Ha2].
       specialize (IH1 e et1 ef1 tr1 s oracle E1 Ha1 Hok1 Hr). destruct (eval_cond s c1 oracle) as [b o|d]; auto.
       destruct b.
       + specialize (IH2 et1 et ef2 tr2 s o E2 Ha2 Hok2 IH1). destruct (eval_cond s c2 o) as [b' o'|d]; auto.
         destruct b'; auto. eapply respects_le; [exact IH2|apply join_le_r].
       + eapply respects_le; [exact IH1|apply join_le_l].
     - apply andb_true_iff in Hok. destruct Hok as [Hok1 Hok2].
-      destruct (acond c1 e) as [[et1 ef1] tr1] eqn:E1. destruct (acond c2 ef1) as [[et2 ef2] tr2] eqn:E2.
-      inversion Ha; subst. apply incl_all_app in Hall. destruct Hall as [Ha1 Ha2].
+      destruct (acond c1 e) as [[[et1 ef1] tr1] b1] eqn:E1. destruct (acond c2 ef1) as [[[et2 ef2] tr2] b2] eqn:E2.
+      inversion Ha as [[Ea Eb Ec Hb]]; subst. apply andb_true_iff in Hb. destruct Hb as [-> ->].
+      apply incl_all_app in Hall. destruct Hall as [Ha1 Ha2].
       specialize (IH1 e et1 ef1 tr1 s oracle E1 Ha1 Hok1 Hr). destruct (eval_cond s c1 oracle) as [b o|d]; auto.
       destruct b.
       + eapply respects_le; [exact IH1|apply join_le_l].
@@ -441,11 +497,12 @@ Section Sound.
 
   (* the arguments of a call, and the package-level variables, respect the callee's entry environment *)
   Lemma call_entry s e g args n :
-    respects s e -> GInv s -> args_ok ALL e g args -> forallb (atom_ok prog) args = true -> length args = n ->
+    respects s e -> GInv s -> args_ok ALL e g args -> forallb (atom_ok prog) args = true ->
+    forallb (fun a => use_ok (prods_of_atom e a)) args = true -> length args = n ->
     respects (bind_params 0 (map (eval_atom s) args) ++ globals_of s) (entry_env g 0 n) /\
     GInv (bind_params 0 (map (eval_atom s) args) ++ globals_of s).
   Proof.
-    intros Hr HG Hargs Hoks Hlen. split.
+    intros Hr HG Hargs Hoks Hus Hlen. split.
     - intros x Hok Hx. rewrite sget_callee in Hx. rewrite entry_env_get. destruct x as [i|k].
       + cbn [Nat.leb andb Nat.add]. destruct (Nat.ltb i n) eqn:L.
         * apply Nat.ltb_lt in L. exists (PSite (SParam g i)). split; [left; reflexivity|]. cbn.
@@ -453,7 +510,8 @@ Section Sound.
           -- subst v. rewrite nth_error_map in En. destruct (nth_error args i) as [a|] eqn:Ea; [|discriminate].
              cbn in En. inversion En as [Hv].
              destruct (eval_atom_respects s e a (forallb_nth _ _ _ _ Hoks Ea) Hr Hv) as [p [Hp Hn]].
-             eapply trigger_to_site; [exact (Hargs i a Ea p Hp) | exact Hn].
+             eapply trigger_to_site; [exact (Hargs i a Ea p Hp) | exact Hn |].
+             eapply use_ok_in; [|exact Hp]. apply (forallb_nth (fun a => use_ok (prods_of_atom e a)) _ _ _ Hus Ea).
           -- apply nth_error_None in En. rewrite map_length in En. lia.
         * exists PNil. split; [left; reflexivity | exact I].
       + exists (PSite (SGlobal k)). split; [left; reflexivity|]. cbn. apply HG; auto.
@@ -461,23 +519,20 @@ Section Sound.
     - intros k Hk Hx. rewrite sget_callee in Hx. auto.
   Qed.
 
-  Lemma globals_fresh_in e k : globals_fresh ng e = true -> k < ng -> In (PSite (SGlobal k)) (aget e (VG k)).
-  Proof.
-    unfold globals_fresh. rewrite forallb_forall. intros H Hk. specialize (H k). 
-    assert (Hin : In k (seq 0 ng)) by (apply in_seq; lia). specialize (H Hin).
-    apply existsb_exists in H. destruct H as [q [Hq E]]. apply prod_eqb_eq in E. now subst.
-  Qed.
-
-  (* back in the caller: locals as before the call, package-level variables as the callee left them *)
+  (* back in the caller: locals as before the call, package-level variables as the callee left them; those
+     whose tracked value is no longer (also) their site are marked stale *)
   Lemma after_call s s' e :
-    respects s e -> GInv s' -> globals_fresh ng e = true ->
-    respects (globals_of s' ++ locals_of s) e /\ GInv (globals_of s' ++ locals_of s).
+    respects s e -> GInv s' ->
+    respects (globals_of s' ++ locals_of s) (mark_stale ng e) /\ GInv (globals_of s' ++ locals_of s).
   Proof.
-    intros Hr HG Hf. split.
-    - intros x Hok Hx. rewrite sget_after in Hx. destruct x as [i|k]; cbn in Hx.
+    intros Hr HG. split.
+    - intros x Hok Hx. rewrite sget_after in Hx. rewrite aget_mark_stale. destruct x as [i|k]; cbn in Hx.
       + apply Hr; auto.
-      + cbn in Hok. apply Nat.ltb_lt in Hok. exists (PSite (SGlobal k)). split; [now apply globals_fresh_in|].
-        cbn. apply HG; auto.
+      + assert (Hk : Nat.ltb k ng = true) by exact Hok. rewrite Hk. cbn [andb]. apply Nat.ltb_lt in Hk. destruct (fresh e k) eqn:F; cbn [negb].
+        * exists (PSite (SGlobal k)). split.
+          -- unfold fresh in F. apply existsb_exists in F. destruct F as [q [Hq E]]. apply prod_eqb_eq in E. now subst.
+          -- cbn. apply HG; auto.
+        * exists PStale. split; [left; reflexivity|exact I].
     - intros k Hk Hx. rewrite sget_after in Hx. cbn in Hx. auto.
   Qed.
 
@@ -498,31 +553,31 @@ Section Sound.
         destruct R as [[e' [Heq _]] _]. discriminate.
       + pose proof (IH f s1 s oracle e (Some e1) H1 Hc1 Hr HG) as R. destruct (exec prog fuel s1 s oracle) as [s' o'|v s' o'|d|]; auto.
         destruct R as [[e' [Heq Hr']] HG']. inversion Heq; subst. apply IH with (e := e'); auto.
-    - apply andb_true_iff in Hok. destruct Hok as [Hx Ha]. apply J_assign_inv in HJ. destruct HJ as [Hst ->].
+    - apply andb_true_iff in Hok. destruct Hok as [Hx Ha]. apply J_assign_inv in HJ. destruct HJ as [Hst [Hu ->]].
       destruct (inv_assign s e x (eval_atom s a) (prods_of_atom e a) Hr HG) as [R1 R2]; auto.
       { intros Hv. eapply eval_atom_respects; eauto. }
       split; eauto.
-    - apply J_call_inv in HJ. destruct HJ as [Hargs [Hfresh [Hst ->]]].
+    - apply J_call_inv in HJ. destruct HJ as [Hargs [Hus [Hst ->]]].
       destruct (nth_error (p_funcs prog) g) as [fd|] eqn:Eg; [|discriminate].
       apply andb_true_iff in Hok. destruct Hok as [Hok Hx]. apply andb_true_iff in Hok. destruct Hok as [Hlen Hoks].
       apply Nat.eqb_eq in Hlen.
       destruct (FuncsOK g fd Eg) as [og [HJg Hend]].
-      destruct (call_entry s e g args (f_nparams fd) Hr HG Hargs Hoks Hlen) as [Hentry HGentry].
+      destruct (call_entry s e g args (f_nparams fd) Hr HG Hargs Hoks Hus Hlen) as [Hentry HGentry].
       pose proof (IH g (f_body fd) _ oracle _ og HJg (WF g fd Eg) Hentry HGentry) as R.
       destruct (exec prog fuel (f_body fd) (bind_params 0 (map (eval_atom s) args) ++ globals_of s) oracle) as [s' o'|v s' o'|d|]; auto.
-      + destruct R as [[e' [Heq _]] HG']. destruct (after_call s s' e Hr HG' Hfresh) as [A1 A2].
+      + destruct R as [[e' [Heq _]] HG']. destruct (after_call s s' e Hr HG') as [A1 A2].
         destruct x as [y|]; [|split; eauto].
-        destruct (inv_assign _ e y VNil [PSite (SResult g)] A1 A2) as [R1 R2]; auto.
+        destruct (inv_assign _ (mark_stale ng e) y VNil [PSite (SResult g)] A1 A2) as [R1 R2]; auto.
         { intros _. exists (PSite (SResult g)). split; [left; reflexivity|]. cbn.
-          eapply trigger_to_site; [apply Hend; congruence | exact I]. }
+          eapply trigger_to_site; [apply Hend; congruence | exact I | discriminate]. }
         split; eauto.
-      + destruct R as [Hv HG']. destruct (after_call s s' e Hr HG' Hfresh) as [A1 A2].
+      + destruct R as [Hv HG']. destruct (after_call s s' e Hr HG') as [A1 A2].
         destruct x as [y|]; [|split; eauto].
-        destruct (inv_assign _ e y v [PSite (SResult g)] A1 A2) as [R1 R2]; auto.
+        destruct (inv_assign _ (mark_stale ng e) y v [PSite (SResult g)] A1 A2) as [R1 R2]; auto.
         { intros Hnil. exists (PSite (SResult g)). split; [left; reflexivity|]. cbn. auto. }
         split; eauto.
-    - apply J_deref_inv in HJ. destruct HJ as [Hd ->]. destruct (sget s x) eqn:E.
-      + destruct (Hr x Hok E) as [p [Hp Hn]]. eapply trigger_to_deref; eauto.
+    - apply J_deref_inv in HJ. destruct HJ as [Hd [Hu ->]]. destruct (sget s x) eqn:E.
+      + destruct (Hr x Hok E) as [p [Hp Hn]]. eapply trigger_to_deref; eauto. eapply use_ok_in; eauto.
       + eauto.
     - apply andb_true_iff in Hok. destruct Hok as [Hok Hc2]. apply andb_true_iff in Hok. destruct Hok as [Hcok Hc1].
       apply J_if_inv in HJ. destruct HJ as [et [ef [trc [o1 [o2 [Ea [Hall [H1 [H2 ->]]]]]]]]].
@@ -549,9 +604,9 @@ Section Sound.
         * cbn. now rewrite Hcok, Hbok.
         * eapply respects_le; eauto.
       + split; eauto.
-    - apply J_return_inv in HJ. destruct HJ as [Hret ->]. split; auto. intros Hv.
+    - apply J_return_inv in HJ. destruct HJ as [Hret [Hu ->]]. split; auto. intros Hv.
       destruct (eval_atom_respects s e a Hok Hr Hv) as [p [Hp Hn]].
-      eapply trigger_to_site; eauto.
+      eapply trigger_to_site; eauto. eapply use_ok_in; eauto.
   Qed.
 End Sound.
 
@@ -609,7 +664,7 @@ Proof.
   assert (HG : GInv prog ALL (init_globals 0 (p_ginit prog))).
   { intros k Hk Hx. rewrite init_globals_get in Hx. cbn in Hx. rewrite Nat.sub_0_r in Hx.
     destruct (nth_error (p_ginit prog) k) as [[|]|] eqn:En; try discriminate.
-    - eapply trigger_to_site with (id := 0) (p := PNil); [|exact I].
+    - eapply trigger_to_site with (id := 0) (p := PNil); [|exact I|discriminate].
       unfold ALL. apply in_or_app. left. apply (decl_triggers_in (p_ginit prog) 0 k En).
     - apply nth_error_None in En. lia. }
   assert (Hr : respects prog ALL (init_globals 0 (p_ginit prog)) []).
